@@ -13,7 +13,8 @@
 EXTENDS Integers, Sequences, TLC
 CONSTANTS PieceLens,   \* lengths of appended pieces
           PeekLens,    \* arguments of peek
-          MaxLen       \* bound on the content length
+          MaxLen,      \* bound on the content length
+          MaxApp       \* bound on the number of appends
 
 VARIABLES cfg,     \* [thr]: _large_buf_threshold used by the real object (does not influence the contract)
           data,    \* content, front first
@@ -32,7 +33,7 @@ InitWith(c) ==
 InitState == \E c \in [thr : {4}] : InitWith(c)
 
 DoAppend(n) ==
-    /\ Len(data) + n <= MaxLen
+    /\ Len(data) + n <= MaxLen /\ napp < MaxApp
     /\ data' = data \o Piece(napp + 1, n)
     /\ napp' = napp + 1
     /\ last' = <<>>
@@ -61,5 +62,5 @@ Spec == InitState /\ [][Next]_<<vars, step>>
 (* of data); a peek on a non-empty buffer is never empty                                        *)
 PeekIsPrefix == Len(last) <= Len(data) /\ last = SubSeq(data, 1, Len(last))
 PeekNonEmpty == [][(step'.act = "peek" /\ data # <<>>) => (last' # <<>> /\ Len(last') <= step'.args[1])]_<<vars, step>>
-View == vars
+View == <<cfg, data, napp>>      \* `last` is an observation
 =============================================================================
